@@ -6,6 +6,7 @@ pub mod util;
 
 pub mod c02;
 pub mod c03;
+pub mod c04;
 pub mod c09;
 pub mod c10;
 pub mod c11;
